@@ -37,6 +37,7 @@ type fsInput struct {
 	KillAt  int        `json:"killAt,omitempty"`  // >0: SIGKILL at the KillAt-th file syscall (strace injection)
 	Boards  []fsBoard  `json:"boards,omitempty"`  // boards: the board tree
 	Links   [][]string `json:"links,omitempty"`
+	Bare    bool       `json:"bare,omitempty"` // boards: the root board declares nothing but boards
 }
 
 type fsBoard struct {
@@ -127,6 +128,15 @@ func boardInputs(c *Ctx) []fsInput {
 	add(L("layers", "a."), L("layers", "a"), L("layers", "a "))
 	add(L("scenarios", " "), L("scenarios", ".hidden"), L("steps", "A"), L("steps", "a"))
 	add(L("layers", "a%2Fb"), L("layers", "a/b"))
+	// a board named like the directory itself, as a leaf and with boards below it, also under a root that declares only boards
+	add(L("layers", "."), L("layers", "a"))
+	add(L("layers", ".", L("layers", "x")), L("layers", "a"))
+	add(L("layers", "a", L("scenarios", ".")))
+	bare := func(bs ...fsBoard) { res = append(res, fsInput{Mode: "boards", Boards: bs, Bare: true}) }
+	bare(L("layers", "a"), L("layers", "b"))
+	bare(L("layers", "."), L("layers", "a"))
+	bare(L("layers", "a"), L("layers", ".", L("layers", "x")))
+	bare(L("layers", "index"), L("layers", ".."))
 	n := 14
 	if c.Thorough() {
 		n = 400
@@ -271,6 +281,9 @@ func fsRun(c *Ctx, d2bin string, in fsInput, withKills bool) error {
 		args = []string{"in.d2", "out.svg"}
 	case "boards":
 		script := boardScript(in.Boards, "", "r")
+		if in.Bare {
+			script = strings.TrimPrefix(script, "nr\n")
+		}
 		os.WriteFile(filepath.Join(work, "in.d2"), []byte(script), 0o644)
 		target = filepath.Join(work, "out.svg")
 		existed = false
